@@ -118,6 +118,7 @@ def read_body(case, ctx, tmp):
                 if exc is not None or not same_result(g, m):
                     ctx.v(ID, "read:0-d-slice", "open_nc(f)[%r][:] gave %r (%s), in memory %r" % (k, g, type(exc).__name__ if exc else None, m))
                 continue
+            hk = f[k]
             for trial in range(6):
                 idx, ikinds = gen_label_index(rng, m, True)
                 tol = rng.choice([None, None, 0.3, 0.6]) if 'near' in ikinds else None
@@ -131,18 +132,22 @@ def read_body(case, ctx, tmp):
                     if spell == 'nloc':
                         return m.nloc[single]
                     return m.take(t, indexing='label', tol=tol)
+                # the variable's handle: taken now, or taken when the file was opened (it indexes the way it did then, whatever the
+                # session option `indexing.by` says by the time it is used - like the array loaded at that time)
+                early = spell in ('getitem', 'loc', 'sel', 'nloc') and rng.random() < 0.5
+                hv = (lambda: hk) if early else (lambda: f[k])
                 if spell == 'getitem':
-                    fn_ = lambda: f[k][single]
+                    fn_ = lambda: hv()[single]
                 elif spell == 'loc':
-                    fn_ = lambda: f[k].loc[single]
+                    fn_ = lambda: hv().loc[single]
                 elif spell == 'sel':
-                    fn_ = lambda: f[k].sel(**dct)
+                    fn_ = lambda: hv().sel(**dct)
                 elif spell == 'read':
                     fn_ = lambda: f[k].read(indices=t, tol=tol)
                 elif spell == 'take-dict':
                     fn_ = lambda: f[k].read(indices=dict(dct))
                 elif spell == 'nloc':
-                    fn_ = lambda: f[k].nloc[single]
+                    fn_ = lambda: hv().nloc[single]
                 elif spell in ('read-axis', 'read_nc-axis'):
                     q = rng.randrange(m.ndim)
                     t = tuple(ix if i == q else slice(None) for i, ix in enumerate(idx))
@@ -161,7 +166,10 @@ def read_body(case, ctx, tmp):
                     e = expect()
                 except Exception as ex:
                     e = ex
-                g, exc = ctx.call(label, fn_, operands=())
+                if early:
+                    ctx.outcomes['ondisk-reads-through-early-handle'] += 1
+                    label += " (handle taken when the file was opened)"
+                g, exc = ctx.call(label, fn_, operands=(), ambient=early)
                 g = exc if exc is not None else g
                 ctx.outcomes['ondisk-reads-compared'] += 1
                 if not same_result(g, e):
@@ -288,6 +296,10 @@ def write_body(case, ctx, tmp):
                 rhs = (np.asarray(rhs.values if common.is_da(rhs) else rhs).astype(m.values.dtype)) if not common.is_da(rhs) else da.DimArray(rhs.values.astype(m.values.dtype), axes=[ax.copy() for ax in rhs.axes])
                 if np.ndim(rhs) == 0 and not common.is_da(rhs):
                     rhs = int(rhs)
+            rv_ = rhs.values if common.is_da(rhs) else rhs
+            if isinstance(rv_, np.ndarray) and rv_.dtype.kind == 'f' and rv_.size and rng.random() < 0.3:
+                rv_.flat[rng.randrange(rv_.size)] = np.nan          # missing data in what is assigned
+                ctx.outcomes['ondisk-writes-with-nan'] += 1
             spell = rng.choice(['setitem', 'ix', 'write', 'loc']) if mode == 'label' else rng.choice(['ix', 'iloc', 'write-pos'])
             if spell == 'setitem':
                 def fw():
@@ -312,7 +324,7 @@ def write_body(case, ctx, tmp):
                 def fw():
                     f[k].write(t, rhs, indexing='position')
             label = "on-disk %s %r[%s] = %s %s (labels %s)" % (spell, k, codec.short(t, 120), form, mode, codec.short([ax.values.tolist() for ax in m.axes], 100))
-            _, exc = ctx.call(label, fw, operands=(rhs,) if common.is_da(rhs) else ())
+            _, exc = ctx.call(label, fw, operands=common.array_args(rhs))
             try:
                 m.put(t, rhs.values if common.is_da(rhs) else rhs, indexing=mode)
                 mexc = None
